@@ -235,31 +235,39 @@ theorem defaultsRec_spec (fmt : Fmt) (fuel : Nat) (rebuild : Pairs → Pairs) (c
 /-- `pypyr.steps.contextmerge` / `pypyr.steps.default`: when the step succeeds its effect on the
     context is exactly `Context.merge(context['contextMerge'])` / `set_defaults(context['defaults'])`,
     so the theorems above apply; the key must exist and must not be `None`. -/
+theorem assertKeyHasValue_ok (root : Pairs) (key caller : String) (add : Val)
+    (h : assertKeyHasValue root key caller = .ok add) :
+    dictGet? root (.str key) = some add ∧ add ≠ .none := by
+  unfold assertKeyHasValue at h
+  split at h
+  · cases h
+  · cases h
+  · rename_i v hv hne
+    cases h
+    exact ⟨hv, fun e => hne (by rw [e] at hv; exact hv)⟩
+
 theorem runStep_ok (useDefaults : Bool) (fuel : Nat) (root root' : Pairs)
     (h : runStep useDefaults fuel root = .ok root') :
     ∃ add t, dictGet? root (.str (if useDefaults then "defaults" else "contextMerge")) = some add ∧
       add ≠ .none ∧
       (if useDefaults then setDefaults fuel root add else merge fuel root add) = .ok (root', t) := by
-  unfold runStep at h
-  simp only [] at h
-  split at h
-  · cases h
-  · rename_i add hadd
+  cases useDefaults
+  all_goals
+    simp only [runStep, Bool.false_eq_true, if_false, if_true] at h ⊢
     split at h
     · cases h
-    · rename_i r t hm
+    · rename_i add hadd
+      have ⟨h1, h2⟩ := assertKeyHasValue_ok _ _ _ _ hadd
       split at h
       · cases h
-      · split at h
+      · rename_i r t hm
+        split at h
         · cases h
         · split at h
           · cases h
-            refine ⟨add, t, ?_, ?_, hm⟩
-            · unfold assertKeyHasValue at hadd
-              split at hadd <;> first | cases hadd | rfl
-            · unfold assertKeyHasValue at hadd
-              split at hadd <;> first | cases hadd | (rename_i hne _; intro e; subst e; exact hne _ rfl)
-          · cases h
+          · split at h
+            · cases h; exact ⟨add, t, h1, h2, hm⟩
+            · cases h
 
 theorem runStep_requires_key (useDefaults : Bool) (fuel : Nat) (root : Pairs)
     (hk : dictGet? root (.str (if useDefaults then "defaults" else "contextMerge")) = none) :
